@@ -135,7 +135,7 @@ REAL_ALGS = [
     "gateaux_expand",
     "ufl2unicode",
 ]
-STRING_ALGS = ("str", "formatter_tree", "ufl2unicode")  # results spell out index counts
+STRING_ALGS = ("formatter_tree", "ufl2unicode")  # results spell out index counts (str is normalised)
 STRING_INSTANCES = ("Expression2UnicodeHandler",)
 FAULT_FILES = ["corealg/multifunction.py", "algorithms/transformer.py"]
 
